@@ -14,12 +14,9 @@ impl InputPlugin for GridSearchPlugin {
             None => Ok(()),
             Some(grid_search_input) => {
                 // prevent recursion due to nested grid search keys
-                let recurses = serde_json::to_string(grid_search_input)
-                    .map_err(|e| InputPluginError::JsonError { source: e })?
-                    .contains("grid_search");
-                if recurses {
+                if contains_grid_search_key(grid_search_input) {
                     return Err(InputPluginError::InputPluginFailed(String::from(
-                        "grid search section cannot contain the string 'grid_search'",
+                        "grid search section cannot contain the key 'grid_search'",
                     )));
                 }
 
@@ -83,6 +80,26 @@ impl InputPlugin for GridSearchPlugin {
             }
         }
     }
+}
+
+/// true if an object nested anywhere in this value has the grid search key.
+/// option values that merely contain that text are fine.
+fn contains_grid_search_key(value: &serde_json::Value) -> bool {
+    let key = InputField::GridSearch.to_str();
+    let mut pending = vec![value];
+    while let Some(next) = pending.pop() {
+        match next {
+            serde_json::Value::Object(map) => {
+                if map.contains_key(key) {
+                    return true;
+                }
+                pending.extend(map.values());
+            }
+            serde_json::Value::Array(values) => pending.extend(values.iter()),
+            _ => {}
+        }
+    }
+    false
 }
 
 #[cfg(test)]
